@@ -4,6 +4,7 @@ mod dhist;
 mod props;
 mod real;
 mod refmodel;
+mod replay;
 mod sched;
 mod universe;
 
@@ -17,7 +18,7 @@ fn usage() -> ! {
 fn main() {
     common::install_panic_hook();
     let args: Vec<String> = std::env::args().collect();
-    if args.len() < 3 {
+    if args.len() < 3 && !(args.len() == 3) {
         usage();
     }
     match args[1].as_str() {
@@ -33,8 +34,11 @@ fn main() {
                 "C04" => props::c04::run(tier),
                 "C05" => props::c05::run(tier),
                 "C06" => props::c06::run(tier),
+                "C07" => props::c07::run(tier),
                 "C08" => props::c08::run(tier),
                 "C09" => props::c09::run(tier),
+                "C10" => props::c10::run(tier),
+                "C11" => props::c11::run(tier),
                 "C12" => props::c12::run(tier),
                 "C13" => props::c13::run(tier),
                 _ => usage(),
@@ -44,6 +48,11 @@ fn main() {
         "c05-export" => {
             let depth = args.get(3).and_then(|s| s.parse().ok()).unwrap_or(1);
             std::process::exit(props::c05::export(&args[2], depth));
+        }
+        "replay" => std::process::exit(replay::run(&args[2])),
+        "c07-core" => {
+            let tier = if args[2] == "thorough" { Tier::Thorough } else { Tier::Quick };
+            std::process::exit(props::c07::core_cli(tier));
         }
         "c05-import" => std::process::exit(props::c05::import(&args[2])),
         _ => usage(),
